@@ -642,7 +642,12 @@ class Terms:
                 return ("cycle", pl["s"])
             return v
         self.memo[key] = None
-        t = intern(self._place(pl, bb, idx))
+        st = self.__dict__.setdefault("_pos", [])
+        st.append((bb, idx))
+        try:
+            t = intern(self._place(pl, bb, idx))
+        finally:
+            st.pop()
         self.memo[key] = t
         return t
 
@@ -656,7 +661,22 @@ class Terms:
             elif "dc" in e:
                 t = ("variant", t, e["dc"])
             elif "idx" in e:
-                t = ("index", t, ("local", e["idx"]))
+                ix = ("local", e["idx"])
+                pos = self.__dict__.get("_pos") or []
+                if pos:
+                    # `xs[i]` with `i` a local: its value where the place is read (a literal index is `_n = const k`)
+                    v = self.place({"l": e["idx"], "p": [], "s": "_%d" % e["idx"]}, pos[-1][0], pos[-1][1])
+                    if v[0] == "const" and v[1] == "int":
+                        ix = v
+                    else:
+                        # xs[xs.len() - 1]: the last element (the from-the-end index -1 of slice patterns)
+                        w = v[1] if v[0] == "field" and v[2] == "0" else v
+                        if w[0] == "bin" and w[1] in ("Sub", "SubWithOverflow", "SubUnchecked") and tuple(w[3][:3]) == ("const", "int", 1):
+                            L = w[2]
+                            lx = L[2] if (L[0] == "un" and L[1] == "PtrMetadata") else (L[2][0] if L[0] == "call" and L[1].split("::")[-1] == "len" and L[2] else None)
+                            if lx is not None and norm(lx) == norm(t):
+                                ix = ("const", "int", -1)
+                t = ("index", t, ix)
             elif "cidx" in e:
                 t = ("index", t, ("const", "int", (-e["cidx"]) if e.get("from_end") else e["cidx"]))
             elif "sub" in e:
